@@ -10,6 +10,7 @@ variants.fake_rtlsdr()   # before the reader module is imported (the demodulator
 import pyModeS as pms  # noqa: E402
 from pyModeS import py_common  # noqa: E402
 from ref import crc24
+from ref import frames as frames_ref
 from ref.frames import tohex
 from vlib import gen
 from vlib import volume
@@ -31,9 +32,21 @@ def _ok(r):
 
 
 # ---------------------------------------------------------------- three-way
+SPECIAL_REMAINDERS = [0xFFFFFF, 0xFFFFFE, 0x800000, 0x7FFFFF, 0x000001, 0x000000, 0xFFF409, 0x000080, 0xFFFF80]
+
+
 @st.composite
 def s_frame(draw):
     n, v = draw(gen.frame_ints())
+    if draw(gen.uint(0, 5)) == 0:
+        # a remainder / parity with a value of its own (all ones, all zeros, one bit, the generator's low bits, 2^24 - 2): the last 24 data bits are
+        # solved for so that the 24 parity bits of the data part come out as that value (a uniformly random frame meets each with probability 2^-24)
+        t = draw(st.sampled_from(SPECIAL_REMAINDERS))
+        tail = draw(st.sampled_from([0, 0, 0xFFFFFF, 1, t]))
+        data = v >> 24
+        x = frames_ref.affine_solve(lambda x: crc24.parity((data & ~0xFFFFFF) | x, n - 24) ^ t, 24)
+        v = ((((data & ~0xFFFFFF) | x) << 24) | tail) if x is not None else v
+        return {"msg": tohex(v, n, draw(gen.hexcase)), "enc": draw(st.booleans()), "special": "%06X" % t}
     return {"msg": tohex(v, n, draw(gen.hexcase)), "enc": draw(st.booleans())}
 
 
@@ -51,6 +64,8 @@ def chk_three_way(case, note):
             return "crc(%s, %r) -> %r, with the flag as %r -> %r" % (m, flag, call(pms.crc, m, flag), enc, got)
     leg = call(py_common.crc_legacy, m, enc)
     note.cls("len%d" % n, "enc" if enc else "dec", "lower" if m != m.upper() else "upper")
+    if case.get("special"):
+        note.cls("data-parity-" + case["special"])
     note.nt(v != 0)
     if got != ("ok", exp):
         return "crc(%s, encode=%s) = %r, reference remainder = %06X" % (m, enc, got, exp)
